@@ -4,6 +4,7 @@ from lib import pyvals as pv
 from props.rec_common import *  # noqa: F401,F403
 
 ID = "C18"
+LOG_LEVEL_INVARIANT = True      # (harness/vp.py: a sample of the cases again with logging at DEBUG; same observables)
 RUN_MODULE = "RunC18"
 RULE = ("one case = a history of 2-5 runs on one real recorder: operations of two or three classes (instance and class-level, "
         "the same class several times with different extractors: dict / raises / junk int / junk pairs / none) terminating by "
